@@ -29,12 +29,14 @@ class verb(Command):
     def invoke(self, tex):
         """ Parse for matching delimiters """
         self.ownerDocument.context.push(self)
-        self.parse(tex)
+        # Switch the category codes before anything is read: looking
+        # ahead for the * modifier already tokenizes the delimiter
         self.ownerDocument.context.setVerbatimCatcodes()
+        self.parse(tex)
         # See what the delimiter is
         for endpattern in tex:
             self.delimiter = endpattern
-            if isinstance(endpattern, bgroup):
+            if endpattern == '{':
                 self.delimiter = endpattern = Other('}')
             break
         tokens = [self, endpattern]
